@@ -545,6 +545,39 @@ pub fn oracle_c(n: usize, run: &MpcRun, spec_json: &Value) -> (Vec<Violation>, B
             }
         }
     }
+    // private OT-extension randomness (base key, first seed) must not be a function of the pair's
+    // public coins: neither a raw block of the pairwise generator's stream nor the first output of
+    // the AES generator seeded with such a block
+    for a in 0..n {
+        for b in (a + 1)..n {
+            let (Some(x), Some(y)) = (kth(a, b, "RNG ver", 0).and_then(payload32), kth(b, a, "RNG ver", 0).and_then(payload32)) else { continue };
+            let seed: [u8; 32] = std::array::from_fn(|i| x[i] ^ y[i]);
+            let mut rng = ChaCha20Rng::from_seed(seed);
+            let mut derivable: std::collections::HashSet<[u8; 16]> = std::collections::HashSet::new();
+            for _ in 0..256 {
+                let mut blk = [0u8; 16];
+                rng.fill_bytes(&mut blk);
+                derivable.insert(blk);
+                derivable.insert(polytune::verif::aes_rng_first_block(blk));
+            }
+            for p in [a, b] {
+                for pr in run.res.probes[p].iter().filter(|pr| (pr.site == "fresh:alsz_base_key" || pr.site == "fresh:alsz_seed_pairs") && pr.data.len() >= 16) {
+                    *stats.entry("private_ot_values_compared_with_public_coins".into()).or_insert(0) += 1;
+                    let first: [u8; 16] = pr.data[..16].try_into().unwrap();
+                    if derivable.contains(&first) {
+                        v.push(Violation { class: "private-randomness-derived-from-public-coins".into(), ..mk(
+                            "private-ot-randomness-derived-from-public-coins",
+                            format!(
+                                "party {p}: the value used at '{}' equals a block of (or the AES generator's first output for a block of) the ChaCha20 stream seeded with the XOR of the 'RNG ver' openings of the pair ({a},{b}) - the peer can compute it",
+                                pr.site
+                            ),
+                        ) });
+                        break;
+                    }
+                }
+            }
+        }
+    }
     // the same first coefficient in two sessions of one party (n = 2: one pair)
     for p in 0..n {
         let mut seen: BTreeMap<Vec<u8>, usize> = BTreeMap::new();
@@ -748,7 +781,7 @@ impl Check for C04 {
         "fault_enumeration"
     }
     fn rule(&self) -> String {
-        "three sub-checks. A (fault enumeration): per attack configuration (n in {2,3}) every verification step of the preprocessing is attacked with a deviation for which the protocol promises detection - coin-toss commitment / opening (message and, through a tap, the cheater using the other seed itself), base-OT point and both ciphertexts of a base OT, one ALSZ column flipped in 64 of 128 rows, each KOS check field, aBit check bit / MAC, aShare commitments c0+c1 and cm / claimed bit / MAC / opening, HaAND pair, LaAND e / u / commitment / check value, d-value bit / MAC, Beaver d / e / MACs, echo hashes of the verified broadcast (n=3), own d-value and Beaver openings through taps, same-element field combinations (check bit + MAC, Beaver d + e, all d bits of a bucket), and liars that stay consistent with their own commitments (claimed bit / MAC / non-canonical bit byte of 'fashare ver', or a decommitment cut short by one byte / to the bit / to nothing, with a recomputed cm; a wrong key sum with recomputed c0 / c1) - at first / last / random index, towards one recipient and (n=3, broadcast values) consistently towards all; scripted adversary for message deviations, live + tap for self-consistent lies; an honest party that received the bad value and returns Ok is a violation. B (history check over every run of A and the honest reference runs): no honest party sends its k-th 'RNG ver' / 'fashare ver' / 'fashare di_bi' / 'flaand hash' before it completed the receive of every other party's k-th commitment (operation order numbers). C (predictor vs probe, honest runs): the first KOS check coefficient, the aBit test string and the bucket permutation, probed inside the engine, are compared with what an outsider computes from the coin-toss openings seen on the wire strictly before the data under check was sent; alarm only on an exact match (128-bit values; permutations of at least 25 elements, since a shorter one can coincide by chance), or when two OT sessions used the same first coefficient. distinct = (configuration, deviation) with an effective fault".into()
+        "three sub-checks. A (fault enumeration): per attack configuration (n in {2,3}) every verification step of the preprocessing is attacked with a deviation for which the protocol promises detection - coin-toss commitment / opening (message and, through a tap, the cheater using the other seed itself), base-OT point and both ciphertexts of a base OT, one ALSZ column flipped in 64 of 128 rows, each KOS check field, aBit check bit / MAC, aShare commitments c0+c1 and cm / claimed bit / MAC / opening, HaAND pair, LaAND e / u / commitment / check value, d-value bit / MAC, Beaver d / e / MACs, echo hashes of the verified broadcast (n=3), own d-value and Beaver openings through taps, same-element field combinations (check bit + MAC, Beaver d + e, all d bits of a bucket), and liars that stay consistent with their own commitments (claimed bit / MAC / non-canonical bit byte of 'fashare ver', or a decommitment cut short by one byte / to the bit / to nothing, with a recomputed cm; a wrong key sum with recomputed c0 / c1) - at first / last / random index, towards one recipient and (n=3, broadcast values) consistently towards all; scripted adversary for message deviations, live + tap for self-consistent lies; an honest party that received the bad value and returns Ok is a violation. B (history check over every run of A and the honest reference runs): no honest party sends its k-th 'RNG ver' / 'fashare ver' / 'fashare di_bi' / 'flaand hash' before it completed the receive of every other party's k-th commitment (operation order numbers). C (predictor vs probe, honest runs): the first KOS check coefficient, the aBit test string and the bucket permutation, probed inside the engine, are compared with what an outsider computes from the coin-toss openings seen on the wire strictly before the data under check was sent; alarm only on an exact match (128-bit values; permutations of at least 25 elements, since a shorter one can coincide by chance), or when two OT sessions used the same first coefficient. The same sub-check compares each party's private OT-extension randomness (probed base key and first seed) with what the pair's public coins determine (the first 256 blocks of the pairwise generator's stream and the AES generator's first output for each): no match allowed. distinct = (configuration, deviation) with an effective fault".into()
     }
     fn assumptions(&self) -> Vec<String> {
         vec![
